@@ -23,7 +23,11 @@ reg("C09", "exploration", [P("xform", "algebra"),
     P("fpcfg", "xform", package="fpcfg", features="cfg_libm", name="xform-cfg-libm"),
     P("fpcfg", "xform", package="fpcfg", features="cfg_mm", name="xform-cfg-mm")])
 reg("C08", "exploration", [P("xform", "proj")])
-reg("C04", "exploration", [P("rast", "cover")])
+reg("C04", "exploration", [P("rast", "cover"),
+    # coverage again in the float configurations whose floor / approx_eq epsilon differ from std's
+    P("fpcfg", "cover", package="fpcfg", features="cfg_none", name="cover-cfg-none"),
+    P("fpcfg", "cover", package="fpcfg", features="cfg_mm", name="cover-cfg-mm"),
+    P("fpcfg", "cover", package="fpcfg", features="cfg_libm", name="cover-cfg-libm")])
 reg("C05", "exploration", [P("rast", "interp")])
 reg("C03", "exploration", [P("clip", "all")])
 reg("C01", "exploration", [P("pipe", "image")])
